@@ -92,7 +92,10 @@ def nextBits (s : String) : String :=
   | some n => "B" ++ hexN (s.length - 1) (n + 1)
   | none => s
 
-/-- `f64rt <hex literal> => B<16 hex bits> | E` (str, slice, reader and `Value::as_f64` merged; `X…` if they differ) -/
+/-- `f64rt <hex literal> => B<16 hex bits> | E` (str, slice, reader and `Value::as_f64` merged; `X…` if they differ).
+    With `arbitrary_precision` a `Value` keeps the text and `as_f64` is `str::parse::<f64>` (std), so on the literals of
+    the open findings the fourth path is right while the three lexical paths agree on the wrong bits: such an
+    observation `Xa,a,a,d` with `d` = the specification's value is judged as `a` (the model mirrors it). -/
 def f64rt : Handler := fun args impl =>
   match args with
   | [h] =>
@@ -101,11 +104,16 @@ def f64rt : Handler := fun args impl =>
       match toF64 (deFloatRoundtrip false p) with
       | some m =>
         let want := show64 (spec64 p)
-        let tag := if zeroTail false p && impl == nextBits want then " [zero-tail]"
-                   else if moderateTruncated p && impl == prevBits want then " [moderate-truncated]" else ""
-        { model := show64 m,
-          specs := if impl == want then [] else
-            [s!"C07 f64{tag}: got {impl}, the correctly rounded value of the literal is {want}"] }
+        let (lexImpl, viaStd) :=
+          match (if impl.startsWith "X" then (impl.drop 1).toString.splitOn "," else []) with
+          | [a, b, c, d] => if a == b && b == c && d == want then (a, true) else (impl, false)
+          | _ => (impl, false)
+        let tag := if zeroTail false p && lexImpl == nextBits want then " [zero-tail]"
+                   else if moderateTruncated p && lexImpl == prevBits want then " [moderate-truncated]" else ""
+        let ms := show64 m
+        { model := if viaStd then s!"X{ms},{ms},{ms},{want}" else ms,
+          specs := if lexImpl == want then [] else
+            [s!"C07 f64{tag}: got {lexImpl}, the correctly rounded value of the literal is {want}"] }
       | none => bad "fuel"
     | none => bad "not a number literal"
   | _ => bad "arity"
